@@ -1157,8 +1157,14 @@ func (mpt *MerklePatriciaTrie) MergeDB(ndb NodeDB, root Key, deadNodes []Node) e
 	mpt.mutex.Lock()
 	defer mpt.mutex.Unlock()
 	handler := func(ctx context.Context, key Key, node Node) error {
-		_, _, err := mpt.insertNode(nil, node)
-		return err
+		// nodes merged from another store keep their own origin: they are referenced by the hash they
+		// were created with, so they are stored under their own key and the donor's node is not modified
+		if err := mpt.db.PutNode(key, node); err != nil {
+			return err
+		}
+		mpt.cache.Set(string(key), node)
+		mpt.ChangeCollector.AddChange(nil, node)
+		return nil
 	}
 	mpt.root = root
 	mpt.deleteNodes = append(mpt.deleteNodes, deadNodes...)
